@@ -113,12 +113,20 @@ class Dykstra(E2Contract):
         x = inp["var"]
         P1, P2 = (("Peq", "Pineq") if order == "eq_ineq" else ("Pineq", "Peq"))
         zero = np.zeros(x.shape[0])
+        cls = type(empty_obj(W, kind, inp["c_sys"], 2, False))
+
+        def proj(tag, v):
+            # symbolic world: the uninterpreted function; native world: the real projection (so refutations replay natively)
+            if W.symbolic:
+                return opaque_vec(tag, NP._A(v))
+            f = cls.calc_proj_eq_constraint_with_var if tag == "Peq" else cls.calc_proj_ineq_constraint_with_var
+            return f(inp["c_sys"], np.copy(v), on_para_eq_constraint=False)
         xs, ys, ps, qs, errs = [x], [None], [zero], [zero], []
         n_done = len(out["hist_v"]["x"]) - 1          # sweeps actually executed on this path
         for k in range(n_done):
-            y = opaque_vec(P1, NP._A(xs[-1] + ps[-1]))
+            y = proj(P1, xs[-1] + ps[-1])
             p = xs[-1] + ps[-1] - y
-            xn = opaque_vec(P2, NP._A(y + qs[-1]))
+            xn = proj(P2, y + qs[-1])
             q = y + qs[-1] - xn
             if k >= 1:
                 dp, dq = ps[-1] - p, qs[-1] - q
